@@ -122,6 +122,7 @@ type driver struct {
 	storm     int
 	forged    int
 	nonDHCP   int
+	ages      int       // number of "age" actions (6 s each) since the behaviour started
 	altDNS    bool      // the handler currently runs with the changed configuration (DhcpAltDNS)
 	scribbleP float64   // probability that the shared buffer is scribbled over after a step
 	txlog     bool      // log every non-storm frame written during the step (hex) and wait for forged frames
@@ -183,6 +184,7 @@ func (d *driver) reset(cfg int, mode string, storm bool) error {
 	os.Remove(d.file)
 	d.fileStamp = ""
 	d.altDNS = false
+	d.ages = 0
 	d.lastOffer, d.lastAck = map[string]int{}, map[string]int{}
 	if storm {
 		dhcp.VerifResetStorm()
@@ -528,6 +530,8 @@ func (d *driver) decodeFile() ([]FileRec, string) {
 	return out, st
 }
 
+const ageStep = 6 * time.Second
+
 func (d *driver) snapshot(rec map[string]interface{}) {
 	rec["leases"] = d.leases()
 	rec["next"] = d.cursors()
@@ -543,8 +547,15 @@ func (d *driver) snapshot(rec map[string]interface{}) {
 			}
 			k, ip := vh.DhcpCIDName(l.ClientID), d.nw.Abs(l.IP)
 			for i := range out {
-				if out[i].K == k && out[i].IP == ip && !out[i].exp.Equal(l.DHCPExpiry) {
-					out[i].Cur = false
+				if out[i].K == k && out[i].IP == ip {
+					// the age hook moves the in-memory expiry back by whole steps; anything else is a stale file
+					same := false
+					for n := 0; n <= d.ages && !same; n++ {
+						same = out[i].exp.Equal(l.DHCPExpiry.Add(time.Duration(n) * ageStep))
+					}
+					if !same {
+						out[i].Cur = false
+					}
 				}
 			}
 		}
@@ -648,6 +659,10 @@ func (d *driver) step(a action) (rec map[string]interface{}) {
 		if err := d.newHandler(); err != nil {
 			perr = "new: " + err.Error()
 		}
+	case "age":
+		// a quiet period longer than the validity of an offer (5 s) passes (verif hook, no wall clock wait)
+		d.h.VerifAgeOffers(ageStep)
+		d.ages++
 	case "reload":
 		// a new handler on the same lease file and the same session
 		d.settle()
